@@ -30,6 +30,14 @@ FRAMES = ["SELECT {e} FROM t", "SELECT a FROM t WHERE {e} > 0", "SELECT a FROM t
           "INSERT INTO t (a) SELECT {e} FROM u", "UPDATE t SET a = {e} WHERE b = 1", "DELETE FROM t WHERE {e} = 1", "SELECT coalesce({e}, 1) AS c, a AS d FROM t",
           "SELECT a FROM t WHERE a IN (SELECT {e} FROM u ORDER BY 1 LIMIT 1)", "CREATE TABLE x.t2 (SELECT {e} AS c FROM t)"]
 EXTRA = EXTRA + [f.format(e=e) for f in FRAMES for e in SNIPPETS]
+# every kind of value in every statement position that holds values (rows of single- and multi-row INSERTs, SET lists, IN lists, BETWEEN bounds,
+# CASE branches, select list with and without alias, grouping / sort keys by position): rendering must leave each of these trees as it was
+VALUE_KINDS = ["1", "-1", "1.5", "'one'", "''", "'it''s'", "NULL", "TRUE", "a", "t.a", "lower(a)", "?", "@v", "1 + 2", "(SELECT 1)"]
+VALUE_FRAMES = ["INSERT INTO t (a, b) VALUES ({v}, 1), (2, {v})", "INSERT INTO t (a) VALUES ({v})", "INSERT INTO t (a, b) VALUES ({v}, {v}), ({v}, {v}), (3, 4)",
+                "UPDATE t SET a = {v}, b = {v} WHERE c = {v}", "SELECT {v}, {v} AS k FROM t WHERE a IN ({v}, {v})", "SELECT a FROM t WHERE a BETWEEN {v} AND {v}",
+                "DELETE FROM t WHERE a = {v}", "SELECT CASE WHEN a = {v} THEN {v} ELSE {v} END AS c FROM t", "SELECT a, count(*) FROM t GROUP BY 1 ORDER BY 2 DESC, 1",
+                "SELECT coalesce({v}, {v}) FROM t ORDER BY 1 LIMIT 1"]
+EXTRA = EXTRA + sorted({f.replace('{v}', v) for f in VALUE_FRAMES for v in VALUE_KINDS})
 _trees = None
 
 
